@@ -217,8 +217,10 @@ type StackCfg struct {
 	TimeoutMs  int    `json:"timeout_ms,omitempty"`
 	Evict      bool   `json:"evict,omitempty"`
 	DeadlineMs int    `json:"deadline_ms,omitempty"`
-	Inject     bool   `json:"inject,omitempty"`   // wrap the delegate with schedule points
-	Defaults   bool   `json:"defaults,omitempty"` // use the ...WithDefaults constructor (queue kinds)
+	TimeoutNs  int64  `json:"timeout_ns,omitempty"`  // overrides TimeoutMs when non-zero
+	DeadlineNs int64  `json:"deadline_ns,omitempty"` // overrides DeadlineMs when non-zero
+	Inject     bool   `json:"inject,omitempty"`      // wrap the delegate with schedule points
+	Defaults   bool   `json:"defaults,omitempty"`    // use the ...WithDefaults constructor (queue kinds)
 }
 
 type stack struct {
@@ -354,6 +356,13 @@ func buildStack(cfg StackCfg, lim core.Limit, sc *sched, t0 time.Time) (*stack, 
 		delegate = &yieldLimiter{def, sc}
 	}
 	timeout := time.Duration(cfg.TimeoutMs) * time.Millisecond
+	if cfg.TimeoutNs != 0 {
+		timeout = time.Duration(cfg.TimeoutNs)
+	}
+	deadline := t0.Add(time.Duration(cfg.DeadlineMs) * time.Millisecond)
+	if cfg.DeadlineNs != 0 {
+		deadline = t0.Add(time.Duration(cfg.DeadlineNs))
+	}
 	qcfg := func(o limiter.QueueOrdering) limiter.QueueLimiterConfig {
 		return limiter.QueueLimiterConfig{Ordering: o, MaxBacklogSize: cfg.Backlog, MaxBacklogTimeout: timeout,
 			BacklogEvictDoneCtx: cfg.Evict, MetricRegistry: s.reg}
@@ -364,7 +373,7 @@ func buildStack(cfg StackCfg, lim core.Limit, sc *sched, t0 time.Time) (*stack, 
 	case "blocking":
 		s.lim = limiter.NewBlockingLimiter(delegate, timeout, nil)
 	case "deadline":
-		s.lim = limiter.NewDeadlineLimiter(delegate, t0.Add(time.Duration(cfg.DeadlineMs)*time.Millisecond), nil)
+		s.lim = limiter.NewDeadlineLimiter(delegate, deadline, nil)
 	case "queue":
 		if cfg.Defaults {
 			s.queue = limiter.NewQueueBlockingLimiterWithDefaults(delegate)
@@ -427,9 +436,12 @@ func (c StackCfg) effBacklog() int {
 
 func (c StackCfg) effTimeout() time.Duration {
 	if c.isQueue() {
-		if c.Defaults || c.TimeoutMs == 0 {
+		if c.Defaults || (c.TimeoutMs == 0 && c.TimeoutNs == 0) {
 			return time.Second
 		}
+	}
+	if c.TimeoutNs != 0 {
+		return time.Duration(c.TimeoutNs)
 	}
 	return time.Duration(c.TimeoutMs) * time.Millisecond
 }
